@@ -22,9 +22,11 @@ CONSTANTS
   OverflowWrapped = TRUE
   InstOffsetAll = TRUE
   OpenPrecheck = TRUE
+  EmbLexerClone = TRUE
 INVARIANT TypeOK
 INVARIANT ImplRefinesReq
 INVARIANT PositionFileOK
+INVARIANT PositionLineOK
 INVARIANT Reusable
 PROPERTY Termination
 CHECK_DEADLOCK FALSE
